@@ -271,3 +271,51 @@ def r_data_segment(tmp, inp):
     if not np.array_equal(got, exp, equal_nan=True):
         return True, 'decoded values %s differ from the bytes in the file %s' % (got.tolist()[:3], exp.tolist()[:3])
     return False, 'agrees'
+
+
+@replayer('FlowCal.io.FCSData.hist_bins')
+def r_hist_bins(tmp, inp):
+    if inp.get('data') is None:
+        return False, 'witness too large'
+    d = make_fcs(tmp, inp['data'], inp.get('meta'))
+    D = d.shape[1]
+    names = list(d._channels)
+    ch, nb, sc = inp['channels'], inp['nbins'], inp['scale']
+    before = repr(d._range)
+
+    def resolve(c):
+        if isinstance(c, str):
+            return names.index(c) if c in names else None
+        return c + D if -D <= c < 0 else (c if 0 <= c < D else None)
+    cols = list(range(D)) if ch is None else ([resolve(c) for c in ch] if isinstance(ch, list) else [resolve(ch)])
+    res = call(d.hist_bins, ch, nb, sc)
+    if any(c is None for c in cols):
+        return res[0] != 'raise', 'invalid channel must raise; observed %s' % res[0]
+    scales = sc if isinstance(sc, list) else [sc] * len(cols)
+    if any(s_ not in ('linear', 'log', 'logicle') for s_ in scales) and cols:
+        return not (res[0] == 'raise' and isinstance(res[1], ValueError)), 'unknown scale must raise ValueError; observed %s' % res[0]
+    for c in cols:
+        r = d._range[c]
+        if r is None or not (r[1] > r[0]) or d._resolution[c] < 2 or (('log' in scales) and r[1] <= 0):
+            return False, 'outside the precondition'
+    if res[0] == 'raise':
+        return True, 'refused a valid request: %r' % (res[1],)
+    if repr(d._range) != before:
+        return True, 'hist_bins changed the stored ranges: %s -> %s' % (before, repr(d._range))
+    out = res[1] if (isinstance(ch, list) or ch is None) else [res[1]]
+    nbs = nb if isinstance(nb, list) else [nb] * len(cols)
+    if len(out) != len(cols):
+        return True, '%d entries for %d channels' % (len(out), len(cols))
+    for e, c, n_, s_ in zip(out, cols, nbs, scales):
+        e = np.asarray(e, dtype=float)
+        n_ = d._resolution[c] if n_ is None else n_
+        lo, hi = d._range[c]
+        if e.shape != (n_ + 1,):
+            return True, 'channel %d: %r edges for %d bins' % (c, e.shape, n_)
+        if not np.all(np.isfinite(e)) or not np.all(np.diff(e) > 0):
+            return True, 'channel %d (%s): edges not finite and strictly increasing' % (c, s_)
+        if s_ == 'log' and not np.all(e > 0):
+            return True, 'channel %d: log edges not positive' % c
+        if e[-1] < hi or (e[0] > lo and (s_ != 'log' or lo > 0)):
+            return True, 'channel %d (%s): edges [%g, %g] do not cover the range [%g, %g]' % (c, s_, e[0], e[-1], lo, hi)
+    return False, 'agrees'
